@@ -233,10 +233,16 @@ func (r *Registry) LoadOutputs(
 		tasks = append(tasks, task)
 	}
 
+	// Wait for every load before reporting a failure: the caller reacts to an error by
+	// re-running the target, which must not overlap with loads that still write its outputs
+	var loadErr error
 	for _, task := range tasks {
-		if err := task.Wait(); err != nil {
-			return err
+		if err := task.Wait(); err != nil && loadErr == nil {
+			loadErr = err
 		}
+	}
+	if loadErr != nil {
+		return loadErr
 	}
 
 	logger.Debugf("%s: outputs loaded", target.Label)
